@@ -29,7 +29,7 @@ ASSUMPTIONS = [
     'smoothing window is a percentage of the layer count (0-100)',
     'for Guillot parameters outside the documented bounds but not in a listed rejected class nothing beyond agreement with the closed form is asserted',
 ]
-REQUIRED = {'guillot-fault-set-after-first-use': 0.02, 'negative-node': 0.006, 'kind:npoint': 0.08, 'kind:guillot': 0.06, 'kind:array': 0.04, 'kind:file': 0.03, 'kind:rodgers': 0.04,
+REQUIRED = {'slope-just-below-limit': 0.004, 'guillot-fault-set-after-first-use': 0.02, 'negative-node': 0.006, 'kind:npoint': 0.08, 'kind:guillot': 0.06, 'kind:array': 0.04, 'kind:file': 0.03, 'kind:rodgers': 0.04,
             'kind:isothermal': 0.02, 'rejected-class': 0.04}
 # coverage-guided extra (thorough tier): pure-Python taurex modules on this property's path, instrumented by atheris
 FUZZ = {'include': ['taurex.data.profiles.temperature'], 'runs': 40000, 'workers': 4}
@@ -61,7 +61,7 @@ def _case(draw):
         c['p_fracs'] = fr
         c['ends'] = draw(st.sampled_from(['default', 'default', 'explicit', 'minus-one']))
         c['smooth'] = draw(st.sampled_from([10, 100, 0, 1, 5, 20, 33, 50, 100, 7.5, 3, 99]))
-        c['fault'] = draw(st.sampled_from([None, 'nearly-equal', None, 'inverted', 'slope', 'negative-node', 'equal-controls', 'nearly-equal', 'negative-node']))
+        c['fault'] = draw(st.sampled_from([None, 'nearly-equal', None, 'inverted', 'slope', 'negative-node', 'equal-controls', 'nearly-equal', 'negative-node', 'slope-below-limit', 'slope-below-limit']))
         c['late_fault'] = draw(st.booleans())
         c['limit'] = draw(st.floats(10.0, 5000.0))
         c['inv_at'] = draw(st.floats(0.0, 0.999))
@@ -192,15 +192,19 @@ def check(case):
             if inv_kw:
                 kw = inv_kw
             limit = 9999999
-            if fault == 'slope':
+            if fault in ('slope', 'slope-below-limit'):
                 nodesP = [kw.get('P_surface', P[0]) if kw.get('P_surface', -1) > 0 else P[0]] + ppts + \
                     [kw.get('P_top', P[-1]) if kw.get('P_top', -1) > 0 else P[-1]]
                 nodesT = [Ts] + Tpts + [Tt]
                 slopes = [abs((nodesT[i + 1] - nodesT[i]) / (math.log10(nodesP[i + 1]) - math.log10(nodesP[i])))
                           for i in range(len(nodesP) - 1)]
-                if max(slopes) > 0:
+                if max(slopes) > 0 and fault == 'slope':
                     limit = max(slopes) * 0.9
                     expect_reject = True
+                elif max(slopes) > 0:
+                    # a limit just above the steepest segment: a legal profile, to be accepted
+                    limit = max(slopes) * 1.1
+                    out.cls('slope-just-below-limit')
             late = None
             if fault == 'negative-node' and expect_reject and c.get('late_fault'):
                 late = (j, ppts[j])
